@@ -115,6 +115,9 @@ func TestVerifC01(t *testing.T) {
 		Digests         map[string]string `json:"digests"`
 	}
 	res := &result{Digests: map[string]string{}}
+	if err := VerifCheckInventory(); err != nil {
+		t.Fatal(err)
+	}
 	res.Counters = map[string]int{}
 	res.Exhaustive = true
 	sigs := map[string]*VViolation{}
